@@ -15,6 +15,21 @@ Theorem C13_exposure : forall es route, has_method (build es) route = true <-> e
 Proof. exact exposure. Qed.
 Print Assumptions C13_exposure.
 
+(* routes: only group.method (exactly one dot) or method (no dot, inner group) can reach anything,
+   whatever names - with dots, with empty segments - are registered; everything else resolves to
+   nothing (so it is not exposed, and calling it completes with an error: C13_call_ser_trace) *)
+Theorem C13_malformed_never_resolves : forall es route,
+  (2 < length (split_dot route))%nat -> resolve es route = None.
+Proof. exact malformed_never_resolves. Qed.
+Print Assumptions C13_malformed_never_resolves.
+
+Theorem C13_resolves_one_dot : forall es route mt,
+  resolve es route = Some mt ->
+  exists g m, (split_dot route = [g; m] \/ (split_dot route = [m] /\ g = inner_group)) /\
+              split_route route = Some (g, m).
+Proof. exact resolves_one_dot. Qed.
+Print Assumptions C13_resolves_one_dot.
+
 (* the whole table: looking a route up in Build()'s maps = the declarative resolution *)
 Theorem C13_table : forall es route,
   find_handler (build es) route = option_map mk_handler (resolve es route).
